@@ -46,17 +46,12 @@ theorem step_inv {sp : Sp} {st st' : St} {ρq ρb dreg} {lq lb nbw : Nat} {box :
   | measure n de ov =>
     cases ov with
     | false =>
-      simp only [violation] at hv
-      have hb : st.bits.length = lb + 0 := by
-        split at hv
-        · cases hv
-        · rename_i hne; simpa using hne
       simp only [step, measureQubits, Bool.false_eq_true, ↓reduceIte, List.range_eq_range'] at hs
       split at hs
       · cases hs
       · rename_i st1 h1
         cases hs
-        obtain ⟨sp1, ρb1, dreg1, e1, inv1⟩ := measureLoop_inv n 0 h hb h1
+        obtain ⟨sp1, ρb1, dreg1, e1, inv1⟩ := measureLoop_inv n 0 h h1
         refine ⟨_, ρq, ρb1, dreg1, by simp only [Sp.step, List.range_eq_range', e1]; rfl, ?_⟩
         cases de with
         | false => exact inv1
@@ -66,15 +61,17 @@ theorem step_inv {sp : Sp} {st st' : St} {ρq ρb dreg} {lq lb nbw : Nat} {box :
       split at hv
       · cases hv
       · rename_i hl
-        split at hv
-        · cases hv
-        · rename_i hde
-          have hde' : de = false := by simpa using hde
-          subst hde'
-          have hraw : st.pp.layers = [] := by simpa using hl
-          simp only [step, measureQubits, ↓reduceIte] at hs
-          obtain ⟨sp1, e1, inv1⟩ := overrideLoop_inv (List.range n) h hraw hs
-          exact ⟨sp1, ρq, ρb, dreg, by simp only [Sp.step, e1]; rfl, inv1⟩
+        have hraw : st.pp.layers = [] := by simpa using hl
+        simp only [step, measureQubits, ↓reduceIte] at hs
+        split at hs
+        · cases hs
+        · rename_i st1 h1
+          cases hs
+          obtain ⟨sp1, e1, inv1⟩ := overrideLoop_inv (List.range n) h hraw h1
+          refine ⟨_, ρq, ρb, dreg, by simp only [Sp.step, e1]; rfl, ?_⟩
+          cases de with
+          | false => exact inv1
+          | true => exact dropQubits_inv inv1
   | bra bs =>
     simp only [step, braQubits] at hs
     split at hs
@@ -111,12 +108,7 @@ theorem step_inv {sp : Sp} {st st' : St} {ρq ρb dreg} {lq lb nbw : Nat} {box :
       simp only [step] at hs
       cases he : st.pp.layers.isEmpty with
       | true =>
-        have h0 : st.ps.has 0 = false := by
-          simp only [violation, he, Bool.true_and] at hv
-          split at hv
-          · cases hv
-          · rename_i hn; simpa using hn
-        obtain ⟨ρb', hlen, inv⟩ := swapBits_raw_inv h he h0 hs
+        obtain ⟨ρb', hlen, inv⟩ := swapBits_raw_inv h he hs
         have : ¬ (sp.bw.length < lb + 2) := by omega
         exact ⟨_, ρq, ρb', dreg, by simp only [Sp.step, this, ↓reduceIte], inv⟩
       | false =>
